@@ -54,7 +54,9 @@ def uniformCategory (e : Nat) (c : CategoryTotal) : Bool :=
 
 def uniform (e : Nat) (t : Total) : Bool := t.sum.exp == e && t.categories.all (uniformCategory e)
 
-/-- an exempt group carries no surcharge (always true of what the calculator builds) -/
+/-- an exempt group carries no surcharge (always true of what the calculator builds).
+    Not a hypothesis of any theorem (since fix 1b8dc7e `Merge` handles the other
+    shapes too); reported by the driver for the input distribution only -/
 def wellFormedRate (r : RateTotal) : Bool := r.percent.isSome || r.surcharge.isNone
 
 def wellFormed (t : Total) : Bool := t.categories.all fun c => c.rates.all wellFormedRate
